@@ -83,6 +83,11 @@ FILES = {
                           unit='U-formalargs', functions=['FormalArgs::eval (body, extracted range; sub-scope and default evaluation replaced by a recording binder)',
                                                           'css::CallArgs::take_positional', 'css::CallArgs::only_named', 'css::CallArgs::check_no_named',
                                                           'sass::Name (- / _ equivalence)']),
+    'transformfns.rs': dict(module='output::transform::kani_verif', src='rsass/src/output/transform.rs',
+                            unit='U-controlflow', functions=['output::transform::handle_item (@if arm, @while arm; extracted ranges)']),
+    'scopefns.rs': dict(module='variablescope::kani_verif', src='rsass/src/variablescope.rs',
+                        unit='U-controlflow', functions=['Scope::define_multi (@each destructuring; extracted range)',
+                                                         'ScopeRef::eval_body (@if arm; extracted range)', 'css::Value::iter_items']),
     'comment.rs': dict(module='css::comment::kani_verif', src='rsass/src/css/comment.rs',
                        unit='U-comment', functions=['Comment::write']),
 }
@@ -95,11 +100,13 @@ BOUNDED_FILES = {
     'opt.rs': 'sequences of at most 4 items, payload type u8',
     'value.rs': 'one representative payload per non-recursive constructor (no nested Value)',
     'comment.rs': 'comment text of bounded length',
+    'transformfns.rs': 'eight representative condition values; @while: at most 3 iterations',
+    'scopefns.rs': 'at most three variables and two-element list values; six representative condition values',
     'formalargs.rs': 'eight concrete call shapes (at most 2 parameters + rest, at most 3 arguments)',
     'sel_compound.rs': 'concrete compound selectors with at most one placeholder / class / id',
     'sel_pseudo.rs': 'constructors only',
     'sel_selector.rs': 'concrete selector structures: lists of at most 3 complex selectors, one combinator, one pseudo-class with a selector argument',
-    'cssdata.rs': 'buffers of at most 4 bytes; style concrete per harness',
+    'cssdata.rs': 'buffers of 0..=3 bytes (one harness per length and style)',
     'evalops.rs': 'one representative payload per value constructor without a nested Value (12 of 17 kinds); scalar payloads symbolic',
 }
 
@@ -126,9 +133,12 @@ OVERRIDES = [
                                 bounded='seven concrete (value, unit, unit) triples')),
     (r'^c13_valuemap_', dict(functions=['OrderMap<css::Value, css::Value>::{get, contains_key, insert, remove} (the instantiation map.get/has-key/set/remove use)'],
                              bounded='maps of one or two entries with concrete keys (1in / 96px / 95px, true, null)')),
-    (r'^c13_map_literal_', dict(bounded='two-entry literals, six concrete key pairs')),
+    (r'^c13_map_literal_', dict(bounded='three-entry literals; key type instantiated at u8 classes modulo 4 instead of css::Value')),
+    # measured: > 6 GB and > 8 min each (css::Value == and drop glue inside OrderMap): thorough-tier attempts
+    (r'^c13_valuemap_', dict(kind='attempt', tier='thorough', timeout=1800)),
     (r'^c28_zip_truncates', dict(bounded='three lists of at most 3 elements')),
-    (r'^c28_index_(first|second|absent|empty)', dict(bounded='four concrete lists of at most two elements')),
+    (r'^c28_index_first_position', dict(bounded='lists of at most 4 elements; element type instantiated at u8')),
+    (r'^c28_(join_concatenates|join_empty|append_adds|set_nth_changes)', dict(bounded='lists of 0-3 elements; element type instantiated at u8')),
     (r'^c28_separator_name|^c28_join_bracketed', dict(bounded='one representative value per kind')),
     (r'^c01_number_into_integer$', dict(functions=['Number::into_integer'])),
     (r'^c01_number_display_fraction_bound$', dict(functions=['Number (fraction digit bound used by Display)'])),
@@ -162,6 +172,7 @@ OVERRIDES = [
     # did not finish in 300 s on the unchanged tree (measured twice, -j 12/14):
     # thorough-tier attempts, reported but never counted as proved
     (r'^c12_color_hsla_cmp_antisymmetric$', dict(kind='attempt', tier='thorough', timeout=1800)),
+    (r'^c12_color_(hwba|rgba)_hsla_eq_symmetric$', dict(kind='attempt', tier='thorough', timeout=1800)),  # measured: > 900 s
     (r'^c12_number_trichotomy$', dict(kind='attempt', tier='thorough', timeout=1800)),
     (r'^c12_value_eq_color_color$', dict(kind='attempt', tier='thorough', timeout=1800)),
     (r'^c28_get_list_shape$', dict(kind='attempt', tier='thorough', timeout=1800)),
@@ -197,7 +208,7 @@ FILE_ASSUMPTIONS = {
 
 _h_re = re.compile(r'^\s*fn\s+((?:c\d\d|cover|canary)_[A-Za-z0-9_]+)\s*\(\s*\)', re.M)
 _per_style_re = re.compile(r'^per_style!\((\w+),\s*(\w+),\s*(\w+),\s*(\w+)\);', re.M)
-_target_re = re.compile(r'^(?:target|left|pair|per_tag|per_kind|and_or|map_lit|arm_kind|index_case)!\((\w+),', re.M)
+_target_re = re.compile(r'^(?:target|left|pair|per_tag|per_kind|and_or|map_lit|arm_kind|index_case|if_case|fn_if_case|while_case|tail_case)!\((\w+),', re.M)
 _shape_re = re.compile(r'^shape!\((\w+),\s*(\w+),', re.M)
 _pair2_re = re.compile(r'^(?:arm_)?pair!\((c11_\w+),\s*(c11_\w+),', re.M)
 _mac_re = re.compile(r'^(?:per_\w+|gen_\w+)!\(([^;]*)\);', re.M)
